@@ -174,3 +174,24 @@ func H_C14_probe() {
 		vAssert("C14.running-means-alive", runs == 1)
 	})
 }
+
+// ---- C14 / C02: binding another queue never changes the state (and never starts a second dispatcher).
+func H_C14_bind_state() {
+	stopFirst := vNondetBool()
+	wb := NewWorker(func(j Job[int]) {}, 1)
+	wb.BindQueue()
+	if stopFirst {
+		wb.Stop()
+	} else {
+		wb.Pause()
+	}
+	before := wb.Status()
+	wb.BindQueue()
+	vAssert("C14.bind-keeps-state", wb.Status() == before)
+	vAssert("C14.bind-keeps-paused", stopFirst || wb.IsPaused())
+	vAssert("C14.bind-keeps-stopped", !stopFirst || wb.IsStopped())
+	vAtQuiescence(func() {
+		vReach("C14.bind.quiescent")
+		vAssert("C02.one-dispatcher", vLibGoroutinesAlive() <= 2)
+	})
+}
